@@ -42,6 +42,7 @@ def main():
     failures = []
     skipped = {}
     NULL = io.BytesIO()
+    NULL_TEXT = io.StringIO()
 
     def fail(what, detail):
         if len(failures) < 10 and sum(1 for f in failures if f["what"] == what) < 3:
@@ -125,6 +126,29 @@ def main():
             refs[b"refs/tags/v-tag"] = t_tag.id
             refs[b"refs/tags/v-tree"] = t_tree.id
             refs[b"refs/tags/v-blob"] = t_blob.id
+        elif shape == "deltas":
+            # one large file lightly edited from commit to commit: a repacked sender stores the later versions as deltas, the
+            # receiver holds the bases in a pack (see install: pack_mode) - the pack that travels is thin wherever the transport allows
+            lines = [b"line %04d of the original file\n" % i for i in range(400)]
+            prev = []
+            for i in range(3):
+                data = b"".join(l for k, l in enumerate(lines) if k % 97 != i) + b"tail %d\n" % i
+                b = add(blob(data))
+                tr = add(tree([(b"data.txt", 0o100644, b), (b"same", 0o100644, shared)]))
+                c = add(mk_commit(tr, prev, b"d%d" % i, i))
+                commits[f"d{i}"] = c
+                prev = [c]
+            refs[b"refs/heads/main"] = commits["d2"].id
+            refs[b"refs/heads/old"] = commits["d0"].id
+        elif shape == "gitlink-own":
+            # a superproject history whose tree carries a gitlink to a commit of ANOTHER branch of the same repository
+            l1 = add(mk_commit(add(tree([(b"lib.c", 0o100644, add(blob(b"lib 1\n")))])), [], b"l1", 0))
+            l2 = add(mk_commit(add(tree([(b"lib.c", 0o100644, add(blob(b"lib 2\n")))])), [l1], b"l2", 1))
+            m1 = add(mk_commit(add(tree([(b"f", 0o100644, add(blob(b"m1\n"))), (b"lib", 0o160000, l2.id)])), [], b"m1", 2))
+            m2 = add(mk_commit(add(tree([(b"f", 0o100644, add(blob(b"m2\n"))), (b"lib", 0o160000, l2.id)])), [m1], b"m2", 3))
+            commits.update(l1=l1, l2=l2, m1=m1, m2=m2)
+            refs[b"refs/heads/main"] = m2.id
+            refs[b"refs/heads/lib"] = l2.id
         children = {}
         for oid, o in objs.items():
             if isinstance(o, Commit):
@@ -151,10 +175,20 @@ def main():
             todo.extend(children[x])
         return seen
 
-    def install(path, objs, refs, bare=True):
+    def install(path, objs, refs, bare=True, pack_mode=None):
         r = Repo.init_bare(path, mkdir=True) if bare else Repo.init(path, mkdir=True)
         for o in objs:
             r.object_store.add_object(o)
+        if pack_mode == "deltified" and objs:
+            # what a repacked repository looks like: blobs of the same path deltified against each other, everything in packs
+            from dulwich.pack import pack_objects_to_data
+            blobs = sorted((o for o in objs if isinstance(o, Blob) and len(o.data) > 1000), key=lambda o: o.data[-7:])
+            if len(blobs) > 1:
+                count, it = pack_objects_to_data([(o, b"data.txt") for o in blobs], deltify=True)
+                r.object_store.add_pack_data(count, it)
+            r.object_store.pack_loose_objects()
+        elif pack_mode == "packed" and objs:
+            r.object_store.pack_loose_objects()
         for k, v in refs.items():
             r.refs[k] = v
         if b"refs/heads/main" in refs:
@@ -170,8 +204,20 @@ def main():
             if missing:
                 fail("receiver is incomplete after the transfer", dict(what, missing=[(objs[m].type_name.decode(), m.decode()[:8]) for m in missing][:5]))
             for x in need:
-                if x in st and st.get_raw(x) != (objs[x].type_num, objs[x].as_raw_string()):
-                    fail("transferred object is not byte-identical", dict(what, obj=x.decode()[:8]))
+                if x in st:
+                    try:
+                        same = st.get_raw(x) == (objs[x].type_num, objs[x].as_raw_string())
+                    except Exception as e:  # noqa: BLE001
+                        fail("a transferred object cannot be read in the receiver", dict(what, obj=objs[x].type_name.decode() + ":" + x.decode()[:8], exc=repr(e)[:150]))
+                        continue
+                    if not same:
+                        fail("transferred object is not byte-identical", dict(what, obj=x.decode()[:8]))
+            for pk in st.packs:
+                try:
+                    for _o in pk.iterobjects():
+                        pass
+                except Exception as e:  # noqa: BLE001
+                    fail("a pack of the receiver is not self-contained after the transfer", dict(what, exc=repr(e)[:150]))
             advertised = closure(children, refs_expected.values()) | closure(children, had_before)
             extra = [x for x in st if x not in advertised]
             if extra:
@@ -269,7 +315,7 @@ def main():
         finally:
             src.close()
 
-    shapes = ["linear", "crisscross", "roots+tags"]
+    shapes = ["linear", "crisscross", "roots+tags", "deltas", "gitlink-own"]
     transports = ["local", "tcp", "http", "git-upload-pack"]
     with tempfile.TemporaryDirectory() as d:
         n = 0
@@ -288,7 +334,7 @@ def main():
                 states = states[::2] if len(states) > 6 else states
             # -------- MissingObjectFinder directly, all (haves, wants)
             src_path = os.path.join(d, f"src_{shape}")
-            src = install(src_path, list(objs.values()) + dangling, refs)
+            src = install(src_path, list(objs.values()) + dangling, refs, pack_mode="deltified" if shape == "deltas" else None)
             for have in states:
                 for want in states:
                     cases += 1
@@ -306,6 +352,37 @@ def main():
                                                                                                                                "missing": [objs[m].type_name.decode() + ":" + m.decode()[:8] for m in need - sent - has][:5]})
                     if not sent <= need:
                         fail("MissingObjectFinder: sends an object outside closure(wants)", {"history": shape, "have": list(have), "want": list(want), "extra": [x.decode()[:8] for x in sent - need][:5]})
+            # -------- a client asking for an object no ref points at (the dangling commit): the dulwich servers must refuse, or at
+            #          least deliver nothing outside the closure of what they advertise
+            for transport in ("tcp", "http"):
+                n += 1
+                cases += 1
+                what = {"history": shape, "transport": transport, "direction": "fetch", "client_wants": "a dangling commit (present on the server, not advertised)"}
+                dst_path = os.path.join(d, f"dst{n}")
+                install(dst_path, [], {}).close()
+                dstr = Repo(dst_path)
+                srv = None
+                try:
+                    srv = TcpServer(src) if transport == "tcp" else HttpServer(src)
+                    client = TCPGitClient("127.0.0.1", port=srv.port) if transport == "tcp" else HttpGitClient(f"http://127.0.0.1:{srv.port}/")
+                    try:
+                        client.fetch("/", dstr, determine_wants=lambda refs_, depth=None: [dangling[2].id], progress=lambda x: None)
+                    except Exception:  # noqa: BLE001
+                        pass                                   # refused: fine
+                    advertised = closure(children, refs.values())
+                    leaked = [x for x in dstr.object_store if x not in advertised]
+                    if leaked:
+                        fail("the server sent objects that are unreachable from the refs it advertises", dict(what, leaked=[x.decode()[:8] for x in leaked][:5]))
+                except Exception as e:  # noqa: BLE001
+                    if isinstance(e, (OSError, ImportError)) and "refused" in repr(e).lower():
+                        skipped[f"{transport}:{type(e).__name__}"] = skipped.get(f"{transport}:{type(e).__name__}", 0) + 1
+                    else:
+                        fail("unadvertised-want probe raised", dict(what, exc=repr(e)[:200]))
+                finally:
+                    if srv:
+                        srv.close()
+                    dstr.close()
+                    shutil.rmtree(dst_path, ignore_errors=True)
             # -------- end to end
             for transport in transports:
                 for have in states:
@@ -316,7 +393,7 @@ def main():
                         dst_path = os.path.join(d, f"dst{n}")
                         have_objs = [objs[x] for x in closure(children, [commits[c].id for c in have])]
                         have_refs = {b"refs/heads/h-" + c.encode(): commits[c].id for c in have}
-                        dst = install(dst_path, have_objs, have_refs)
+                        dst = install(dst_path, have_objs, have_refs, pack_mode="packed" if shape == "deltas" else None)
                         had_before = list(have_refs.values())
                         try:
                             if direction == "fetch":
@@ -441,6 +518,47 @@ def main():
                         fail("clone is not exactly the closure of the sender's refs", {"history": shape, "transport": transport, "missing": len(miss), "extra": [x.decode()[:8] for x in extra][:4]})
                 except Exception as e:  # noqa: BLE001
                     fail("clone raised", {"history": shape, "transport": transport, "exc": repr(e)[:300]})
+            # -------- porcelain: clone an OLDER state of the sender (its first ref only), then fetch / pull from the full sender:
+            #          whatever refs exist in the receiver afterwards, none may point at a missing object (completeness is closed
+            #          under successful transfers), and the closure of every ref is readable
+            first_ref = sorted(k for k in refs if k.startswith(b"refs/heads/"))[-1]
+            for verb in ("fetch", "pull"):
+                cases += 1
+                old_path = os.path.join(d, f"older_{shape}_{verb}")
+                cl = os.path.join(d, f"pp_{shape}_{verb}")
+                try:
+                    sub_objs = [objs[x] for x in closure(children, [refs[first_ref]])]
+                    older = install(old_path, sub_objs, {b"refs/heads/main": refs[first_ref]})
+                    older.close()
+                    porcelain.clone(old_path, cl, errstream=NULL).close()
+                    # the remote moves on: all objects and all refs of the full history appear
+                    older = Repo(old_path)
+                    for o in objs.values():
+                        older.object_store.add_object(o)
+                    for k, v in refs.items():
+                        older.refs[k] = v
+                    older.close()
+                    if verb == "fetch":
+                        porcelain.fetch(cl, errstream=NULL, outstream=NULL_TEXT)
+                    else:
+                        try:
+                            porcelain.pull(cl, errstream=NULL, outstream=NULL)
+                        except Exception as e_:  # noqa: BLE001
+                            if type(e_).__name__ not in ("DivergedBranches", "Error", "CheckoutError"):
+                                raise                      # refusing to merge is not a transfer failure
+                    rr = Repo(cl)
+                    try:
+                        dangling_refs = [(k.decode(), v.decode()[:8]) for k, v in rr.get_refs().items() if v not in rr.object_store]
+                        if dangling_refs:
+                            fail("after a successful fetch / pull a ref of the receiver points at a missing object", {"history": shape, "porcelain": verb, "refs": dangling_refs[:4]})
+                        need = closure(children, [v for v in rr.get_refs().values() if v in children])
+                        miss = [x for x in need if x not in rr.object_store]
+                        if miss:
+                            fail("receiver is incomplete after porcelain fetch / pull", {"history": shape, "porcelain": verb, "missing": len(miss)})
+                    finally:
+                        rr.close()
+                except Exception as e:  # noqa: BLE001
+                    fail("porcelain fetch / pull scenario raised", {"history": shape, "porcelain": verb, "exc": repr(e)[:300]})
             src.close()
         # -------- shallow receivers: main c0<-c1<-c2<-c3, side forks below the boundary: c1<-s1<-s2
         def shallow_history():
